@@ -235,7 +235,9 @@ def behaviour_to_case(b):
 def model_behaviours(ctx, nsim, depth):
     """-> (cases, expectations) from TLC -simulate runs of the implementation-shaped model"""
     from harness import tlc
-    behs, r = tlc.simulate_behaviours('AllocImpl', 'AllocImpl_sim.cfg', ctx.work, num=nsim, depth=depth,
+    import os
+    # own work directory: the model-checking thread runs AllocImpl at the same time (TLC metadir is named after the module)
+    behs, r = tlc.simulate_behaviours('AllocImpl', 'AllocImpl_sim.cfg', os.path.join(ctx.work, 'sim'), num=nsim, depth=depth,
                                       seed=ctx.seed + 1, timeout=600)
     ctx.cov['transitions'] += r.generated
     cases, exps = [], []
